@@ -2,7 +2,7 @@ package main
 
 import "encoding/json"
 
-const c08Rule = "fault enumeration: seeded documents (1..3 conjunctions over a default, a pattern and a range field, incl. all-negative and empty conjunctions) x every expression position replaced by an unparseable value of that container's kind (default: bool / map / nested list / nil / lists with one unparseable element in last, first or middle position; pattern: integer / list with a non-string; range: non-numeric string, typed and untyped lists with one non-numeric element, ill-typed or reversed between pair, malformed description, unknown operator) x {include, exclude} x {skip, error, panic(recovered)} x {k-groups, compact}, followed by queries that would match the bad conjunction had it left a trace (empty assignment, an assignment hitting its includes and avoiding its excludes) and by ordinary queries; plus documents rejected outright (no conjunction, 256 conjunctions, id out of range). Posting-list contents are compared through the hook. Non-trivial = the faulty document has another conjunction or a neighbour that some query matches; distinct = distinct input"
+const c08Rule = "fault enumeration: seeded documents (1..3 conjunctions over a default, a pattern and a range field, incl. all-negative and empty conjunctions) x every expression position replaced by an unparseable value of that container's kind (default: bool / map / nested list / nil / lists with one unparseable element in last, first or middle position; pattern: integer / list with a non-string; range: non-numeric string, typed and untyped lists with one non-numeric element, ill-typed or reversed between pair, malformed description, unknown operator) x {include, exclude} x {skip, error, panic(recovered)} x {k-groups, compact}, followed by queries that would match the bad conjunction had it left a trace (empty assignment, an assignment hitting its includes and avoiding its excludes) and by ordinary queries; plus documents rejected outright (no conjunction, 256 conjunctions, id out of range). Posting-list contents are compared through the hook. number-range descriptions that only start like a range (trailing text, dangling separator, padded number) as default-holder values and as string between operands; Non-trivial = the faulty document has another conjunction or a neighbour that some query matches; distinct = distinct input"
 
 func badValues(cont string) []TV {
 	switch cont {
@@ -99,7 +99,9 @@ func init() {
 								if conts[f] == "ext_range" && r.Chance(15) { // an operator the container does not know, on a value `in` would accept
 									bad = eExpr{F: 2, Inc: inc, Op: 4, V: pick(r, []TV{tvInt("int", 3), tvSlice("[]int", tvInt("int", 3), tvInt("int", 15))})}
 								} else if conts[f] == "ext_range" && r.Bool() {
-									bad = eExpr{F: 2, Inc: inc, Op: 3, V: pick(r, []TV{tvSlice("[]int64", tvInt("int64", 9), tvInt("int64", 5)), tvSlice("[]int64", tvInt("int64", 1)), tvStr("9:5"), tvInt("int", 3), tvStr("1:5:0")})}
+									bad = eExpr{F: 2, Inc: inc, Op: 3, V: pick(r, []TV{tvSlice("[]int64", tvInt("int64", 9), tvInt("int64", 5)), tvSlice("[]int64", tvInt("int64", 1)), tvStr("9:5"), tvInt("int", 3), tvStr("1:5:0"),
+										// descriptions that only START like a range
+										tvStr("10:20,40:50"), tvStr("10:20:"), tvStr("10:20:2x"), tvStr(" 10:20"), tvStr("10:20:1:1"), tvStr("10:20 ")})}
 								}
 								for _, pol := range []string{"skip", "error", "panic"} {
 									for _, kind := range []string{"kgroups", "compact"} {
@@ -143,6 +145,22 @@ func init() {
 					c.Docs = append(c.Docs, eDoc{ID: 78}, many, eDoc{ID: 1 << 43, Cons: []eConj{{}}}, eDoc{ID: -(1 << 50), Cons: []eConj{{mkGood(0, true)}}})
 					add(c)
 					c.Batch = 3
+					add(c)
+				}
+			}
+			// a default-holder field with the number-range parser: descriptions that only start like a range ("a:b" followed
+			// by more text, a dangling separator, a padded number) are unparseable, whatever the policy
+			for _, pol := range []string{"skip", "error", "panic"} {
+				for _, kind := range []string{"kgroups", "compact"} {
+					c := eCase{Kind: kind, Policy: pol, Configs: conts, Parsers: map[int]string{3: "numrange"}}
+					for i, d := range []string{"18:30,40:50", "18:30:", "18:30:2x", " 18:30", "18:30:1:1", "18:30", "18:x", "18:30 "} {
+						c.Docs = append(c.Docs, eDoc{ID: int64(i + 1), Cons: []eConj{{{F: 3, Inc: true, V: tvStr(d)}, {F: 0, Inc: true, V: tvSlice("[]int", tvInt("int", 1))}}, {{F: 0, Inc: true, V: tvSlice("[]int", tvInt("int", int64(i+10)))}}}})
+					}
+					c.Docs = append(c.Docs, eDoc{ID: 20, Cons: []eConj{{{F: 3, Inc: false, V: tvStr("18:30:")}}}}, eDoc{ID: 21, Cons: []eConj{{{F: 3, Inc: false, V: tvSlice("[]string", tvStr("18:30"), tvStr("40:50,60:70"))}}}})
+					for _, a := range []int64{20, 45, 18, 30, 99} {
+						c.Queries = append(c.Queries, eQuery{A: []eAssign{{F: 3, V: tvInt("int", a)}, {F: 0, V: tvInt("int", 1)}}}, eQuery{A: []eAssign{{F: 3, V: tvInt("int", a)}}})
+					}
+					c.Queries = append(c.Queries, eQuery{}, eQuery{A: []eAssign{{F: 0, V: tvInt("int", 12)}}})
 					add(c)
 				}
 			}
